@@ -1,1 +1,209 @@
-// verification hook for h263/src/decoder/cpu/mvd_pred.rs (compiled only under cfg(kani) or cfg(ruffle_rs_h263_rs_verif))
+// Hook module of h263/src/decoder/cpu/mvd_pred.rs.  Properties: C12 (vector reconstruction, candidate selection), C03, C01.
+#![allow(dead_code, unused_imports)]
+use super::*;
+use crate::types::{CustomPictureFormat, Picture, PictureTypeCode, PixelAspectRatio, SourceFormat};
+
+include!("/verif/hooks/common.rs");
+include!("/verif/spec/h263_tables.rs");
+
+fn header(has_plusptype: bool, mvr: Option<MotionVectorRange>) -> Picture {
+    Picture {
+        version: None,
+        temporal_reference: 0,
+        format: None,
+        options: PictureOption::empty(),
+        has_plusptype,
+        has_opptype: false,
+        picture_type: PictureTypeCode::PFrame,
+        motion_vector_range: mvr,
+        slice_submode: None,
+        scalability_layer: None,
+        reference_picture_selection_mode: None,
+        prediction_reference: None,
+        backchannel_message: None,
+        reference_picture_resampling: None,
+        quantizer: 1,
+        multiplex_bitstream: None,
+        pb_reference: None,
+        pb_quantizer: None,
+        extra: Vec::new(),
+    }
+}
+fn picture(has_plusptype: bool, mvr: Option<MotionVectorRange>) -> DecodedPicture {
+    let fmt = SourceFormat::Extended(CustomPictureFormat { pixel_aspect_ratio: PixelAspectRatio::Square, picture_width_indication: 4, picture_height_indication: 4 });
+    DecodedPicture::new(header(has_plusptype, mvr), fmt).unwrap()
+}
+
+// Baseline mode (no UNRESTRICTED_MOTION_VECTORS in force): for every predictor and differential in [-32, 31] half-sample
+// units, result == (predictor + differential) reduced modulo 64 into [-32, 31]; for either component, any other option
+// bits, with or without PLUSPTYPE, any UUI.
+fn h_halfpel_base<S: Src>(s: &mut S) {
+    let (p, m) = (s.i16(), s.i16());
+    s.assume(p >= -32 && p <= 31 && m >= -32 && m <= 31);
+    let bits = s.u32();
+    let opts = PictureOption::from_bits_truncate(bits) & !PictureOption::UNRESTRICTED_MOTION_VECTORS;
+    let is_x = s.bool();
+    let plus = s.bool();
+    let mvr = match s.u8() % 3 {
+        0 => None,
+        1 => Some(MotionVectorRange::Extended),
+        _ => Some(MotionVectorRange::Unlimited),
+    };
+    let pic = picture(plus, mvr);
+    let out = halfpel_decode(&pic, opts, HalfPel::from_unit(p), HalfPel::from_unit(m), is_x);
+    chk!(s, out == HalfPel::from_unit(h263_spec::wrap32(p as i32 + m as i32) as i16), "mvd_pred.halfpel_decode.post_wrap: == (predictor + differential) mod 64 in [-32, 31]");
+    s.reach();
+}
+
+// Annex D.1 mode (UMV in force, no PLUSPTYPE): predictors and results stay within [-64, 63] for table differentials
+fn h_halfpel_umv_bound<S: Src>(s: &mut S) {
+    let (p, m) = (s.i16(), s.i16());
+    s.assume(p >= -64 && p <= 63 && m >= -32 && m <= 31);
+    let bits = s.u32();
+    let opts = PictureOption::from_bits_truncate(bits) | PictureOption::UNRESTRICTED_MOTION_VECTORS;
+    let is_x = s.bool();
+    let pic = picture(false, None);
+    let out = halfpel_decode(&pic, opts, HalfPel::from_unit(p), HalfPel::from_unit(m), is_x);
+    chk!(s, out >= HalfPel::from_unit(-64) && out <= HalfPel::from_unit(63), "mvd_pred.halfpel_decode.post_umv_bound: result in [-64, 63] in Annex D.1 mode");
+    s.reach();
+}
+
+// mv_decode is halfpel_decode on each component
+fn h_mv_decode<S: Src>(s: &mut S) {
+    let (px, py, mx, my) = (s.i16(), s.i16(), s.i16(), s.i16());
+    s.assume(px >= -32 && px <= 31 && mx >= -32 && mx <= 31 && py >= -32 && py <= 31 && my >= -32 && my <= 31);
+    let pic = picture(false, None);
+    let out = mv_decode(&pic, PictureOption::empty(), (HalfPel::from_unit(px), HalfPel::from_unit(py)).into(), (HalfPel::from_unit(mx), HalfPel::from_unit(my)).into());
+    let (ox, oy): (HalfPel, HalfPel) = out.into();
+    chk!(s, ox == HalfPel::from_unit(h263_spec::wrap32(px as i32 + mx as i32) as i16) && oy == HalfPel::from_unit(h263_spec::wrap32(py as i32 + my as i32) as i16),
+         "mvd_pred.mv_decode.post: component-wise wrap of predictor + differential");
+    s.reach();
+}
+
+// Candidate selection of H.263 6.1.1 / Annex F on a concrete grid: `cols` macroblocks per line, `cur` macroblocks already
+// decoded (their 4 vectors each symbolic), block `index` of the current macroblock, blocks < index of the current one
+// symbolic. Spec written from Figure 10 / Figure F.2:
+//   block 0: MV1 = left MB block 1     MV2 = above MB block 2    MV3 = above-right MB block 2
+//   block 1: MV1 = current block 0     MV2 = above MB block 3    MV3 = above-right MB block 2
+//   block 2: MV1 = left MB block 3     MV2 = current block 0     MV3 = current block 1
+//   block 3: MV1 = current block 2     MV2 = current block 0     MV3 = current block 1
+//   rule 1: MV1 := 0 if the left MB is outside the picture; rule 2: then MV2, MV3 := MV1 if the MB above is outside
+//   (first row); rule 3: then MV3 := 0 if the above-right MB is outside (last column).   predictor = median per component.
+fn anymv<S: Src>(s: &mut S) -> (i16, i16) {
+    let (x, y) = (s.i16(), s.i16());
+    s.assume(x >= -64 && x <= 63 && y >= -64 && y <= 63);
+    (x, y)
+}
+fn predict_instance<S: Src, const CUR: usize>(s: &mut S, cols: usize, index: usize) {
+    let mut raw = [[(0i16, 0i16); 4]; CUR];
+    let mut pv = [[MotionVector::zero(); 4]; CUR];
+    let mut i = 0;
+    while i < CUR {
+        let mut b = 0;
+        while b < 4 {
+            raw[i][b] = anymv(s);
+            pv[i][b] = (HalfPel::from_unit(raw[i][b].0), HalfPel::from_unit(raw[i][b].1)).into();
+            b += 1;
+        }
+        i += 1;
+    }
+    let mut craw = [(0i16, 0i16); 4];
+    let mut cur = [MotionVector::zero(); 4];
+    let mut b = 0;
+    while b < index {
+        craw[b] = anymv(s);
+        cur[b] = (HalfPel::from_unit(craw[b].0), HalfPel::from_unit(craw[b].1)).into();
+        b += 1;
+    }
+    let got = predict_candidate(&pv, &cur, cols, index);
+    // spec
+    let col = CUR % cols;
+    let row = CUR / cols;
+    let zero = (0i16, 0i16);
+    let mut mv1 = match index {
+        0 => if col == 0 { zero } else { raw[CUR - 1][1] },
+        2 => if col == 0 { zero } else { raw[CUR - 1][3] },
+        1 => craw[0],
+        _ => craw[2],
+    };
+    let _ = &mut mv1;
+    let (mv2, mv3) = if index >= 2 {
+        (craw[0], craw[1])
+    } else {
+        let above_blk = if index == 0 { 2 } else { 3 };
+        let mut m2 = if row == 0 { mv1 } else { raw[CUR - cols][above_blk] };
+        let mut m3 = if row == 0 { mv1 } else if col + 1 < cols { raw[CUR - cols + 1][2] } else { zero };
+        if col + 1 >= cols {
+            m3 = zero; // rule 3 applies after rule 2
+        }
+        let _ = &mut m2;
+        (m2, m3)
+    };
+    let want = (h263_spec::median3(mv1.0 as i32, mv2.0 as i32, mv3.0 as i32), h263_spec::median3(mv1.1 as i32, mv2.1 as i32, mv3.1 as i32));
+    let (gx, gy): (HalfPel, HalfPel) = got.into();
+    chk!(s, gx == HalfPel::from_unit(want.0 as i16) && gy == HalfPel::from_unit(want.1 as i16),
+         "mvd_pred.predict_candidate.post: median of the three candidates of H.263 6.1.1 / Figure F.2 with the picture-edge rules");
+}
+// one harness per (COLS, CUR): the four block indices of macroblock number CUR in a picture COLS macroblocks wide
+fn h_predict<S: Src, const COLS: usize, const CUR: usize>(s: &mut S) {
+    let mut idx = 0;
+    while idx < 4 {
+        predict_instance::<S, CUR>(s, COLS, idx);
+        idx += 1;
+    }
+    s.reach();
+}
+
+#[cfg(kani)]
+mod proofs {
+    use super::*;
+    #[kani::proof]
+    #[kani::unwind(20)]
+    fn halfpel_base() {
+        h_halfpel_base(&mut KSrc)
+    }
+    #[kani::proof]
+    #[kani::unwind(20)]
+    fn halfpel_umv_bound() {
+        h_halfpel_umv_bound(&mut KSrc)
+    }
+    #[kani::proof]
+    #[kani::unwind(20)]
+    fn mv_decode_base() {
+        h_mv_decode(&mut KSrc)
+    }
+    macro_rules! predict {
+        ($name:ident, $cols:expr, $cur:expr) => {
+            #[kani::proof]
+            #[kani::unwind(12)]
+            fn $name() {
+                h_predict::<KSrc, $cols, $cur>(&mut KSrc)
+            }
+        };
+    }
+    include!("/verif/hooks/h263/decoder/cpu/mvd_pred_shapes.rs");
+}
+
+#[cfg(all(test, not(kani)))]
+mod replay {
+    use super::*;
+    #[test]
+    fn verif_replay() {
+        let name = std::env::var("VERIF_HARNESS").unwrap_or_default();
+        let mut r = RSrc::from_env();
+        match name.as_str() {
+            "halfpel_base" => h_halfpel_base(&mut r),
+            "halfpel_umv_bound" => h_halfpel_umv_bound(&mut r),
+            "mv_decode_base" => h_mv_decode(&mut r),
+            n if n.starts_with("predict_c") => {
+                let n = n.to_string();
+                include!("/verif/hooks/h263/decoder/cpu/mvd_pred_replay_arms.rs")
+            }
+            _ => {
+                println!("REPLAY-UNKNOWN harness={}", name);
+                return;
+            }
+        }
+        r.report(&name);
+    }
+}
